@@ -195,13 +195,54 @@ Definition sk_diff (cfg : config) (h : eheap) (t1 t2 : id) (shape : list (option
   let h2 := deep_copy h1 t2 in
   (build cfg h2 (size (fr h2)) shape, size (fr h2)).
 
-(* copy_nodes / copy_nodes_from_tree_to_tree, modify.py:1198-1201 (`from_node = from_node.copy()`
-   before `from_node.parent = to_node`), and copy_and_replace_nodes_from_tree_to_tree,
-   modify.py:1345-1347.  from_ is a node of the source tree, to_ a node of the destination. *)
-Definition sk_copy_attach (cfg : config) (h : eheap) (from_ to_ : id) : eheap * id :=
+(* copy_nodes / copy_nodes_from_tree_to_tree (copy_or_shift_logic with copy=True, modify.py:1198-1224)
+   and copy_and_replace_nodes_from_tree_to_tree (replace_logic, modify.py:1345-1361):
+   `from_node = from_node.copy()` comes before every write, and every later write has its operands
+   in the copy or in the destination tree.  from_ is a node of the source tree; `ops` lists the
+   writes that follow, given the state after the copy and the copied node. *)
+Definition sk_copy_then (cfg : config) (h : eheap) (from_ : id) (ops : forest -> id -> list op) : eheap * id :=
   let h1 := deep_copy h from_ in
   let c := phi (fr h) from_ from_ in
-  (with_fr h1 (run cfg (fr h1) [SetParent c (ANode to_) NoFault]), c).
+  (with_fr h1 (run cfg (fr h1) (ops (fr h1) c)), c).
+
+Definition attach_to (p : id) (k : id) : op := SetParent k (ANode p) NoFault.
+
+(* descendants-or-self in pre-order (fuel: number of nodes) *)
+Fixpoint reach (fuel : nat) (s : forest) (x : id) : list id :=
+  match fuel with
+  | 0 => [x]
+  | S f => x :: flat_map (reach f s) (kids s x)
+  end.
+Definition leaves (s : forest) (x : id) : list id :=
+  filter (fun k => match kids s k with [] => true | _ => false end) (reach (size s) s x).
+
+(* modify.py:1204-1224 *)
+Definition copy_ops (to_ : id) (merge_children merge_leaves delete_children : bool)
+           (s : forest) (c : id) : list op :=
+  if merge_children then
+    flat_map (fun k => (if delete_children then [DelChildren k] else []) ++ [attach_to to_ k]) (kids s c)
+    ++ [detach c]
+  else if merge_leaves then map (attach_to to_) (leaves s c)
+  else (if delete_children then [DelChildren c] else []) ++ [attach_to to_ c].
+
+(* modify.py:1350-1361: the copy takes the place of to_ among its siblings (the later siblings are
+   detached and re-attached so that the order is kept) *)
+Definition replace_ops (to_ : id) (delete_children : bool) (s : forest) (c : id) : list op :=
+  match par s to_ with
+  | None => []
+  | Some p =>
+      (if delete_children then [DelChildren c] else [])
+      ++ flat_map (fun k => if Nat.eqb k to_ then [detach to_; attach_to p c] else [detach k; attach_to p k])
+                  (skipn (index_of to_ (kids s p)) (kids s p))
+  end.
+
+Definition sk_copy_nodes (cfg : config) (h : eheap) (from_ to_ : id) (mc ml dc : bool) : eheap * id :=
+  sk_copy_then cfg h from_ (copy_ops to_ mc ml dc).
+Definition sk_copy_replace (cfg : config) (h : eheap) (from_ to_ : id) (dc : bool) : eheap * id :=
+  sk_copy_then cfg h from_ (replace_ops to_ dc).
+(* the plain case: the copy becomes a new child of to_ *)
+Definition sk_copy_attach (cfg : config) (h : eheap) (from_ to_ : id) : eheap * id :=
+  sk_copy_nodes cfg h from_ to_ false false false.
 
 (* what the same call would do WITHOUT the copy (shift_nodes): used only to show the theorems are
    not vacuous *)
